@@ -22,12 +22,33 @@ pub fn workers() -> usize {
 /// the batch early (remaining indices are skipped; those already computed with
 /// a larger index than the stopping one are discarded, so the result does not
 /// depend on scheduling).
-pub fn run_batch<R, A, F, M>(n: u64, workers: usize, f: F, acc: &mut A, mut merge: M)
+pub fn run_batch<R, A, F, M>(n: u64, workers: usize, f: F, acc: &mut A, merge: M)
 where
     R: Send,
     F: Fn(u64) -> R + Sync,
     M: FnMut(&mut A, u64, R) -> bool,
 {
+    run_batch_guarded(n, workers, f, acc, merge, None)
+}
+
+/// Last-resort watchdog for code under test that never returns (a retry loop
+/// that spins without touching any seam): `(limit, on_hang)`. If one run takes
+/// longer than `limit` of wall-clock time, `on_hang(run index)` is called from
+/// the merging thread; it is expected to report and end the process. Ordinary
+/// runs take milliseconds, the limit is minutes: the wall clock decides nothing
+/// unless a run hangs.
+pub type Guard<'a> = Option<(std::time::Duration, &'a (dyn Fn(u64) + Sync))>;
+
+pub fn run_batch_guarded<R, A, F, M>(n: u64, workers: usize, f: F, acc: &mut A, mut merge: M, guard: Guard)
+where
+    R: Send,
+    F: Fn(u64) -> R + Sync,
+    M: FnMut(&mut A, u64, R) -> bool,
+{
+    // per worker: (run index + 1, start in ms since t0); 0 = idle
+    let t0 = std::time::Instant::now();
+    let slots: Vec<(AtomicU64, AtomicU64)> = (0..workers.max(1)).map(|_| (AtomicU64::new(0), AtomicU64::new(0))).collect();
+    let slots = &slots;
     const CHUNK: u64 = 64;
     let next = AtomicU64::new(0);
     let stop = AtomicBool::new(false);
@@ -37,8 +58,12 @@ where
     let mut stopped = false;
     std::thread::scope(|s| {
         let mut handles = Vec::new();
-        for _ in 0..workers.max(1) {
-            handles.push(s.spawn(|| loop {
+        for wi in 0..workers.max(1) {
+            let next = &next;
+            let stop = &stop;
+            let done = &done;
+            let f = &f;
+            handles.push(s.spawn(move || loop {
                 if stop.load(Ordering::Relaxed) {
                     break;
                 }
@@ -49,7 +74,10 @@ where
                 let end = (start + CHUNK).min(n);
                 let mut v = Vec::with_capacity((end - start) as usize);
                 for i in start..end {
+                    slots[wi].1.store(t0.elapsed().as_millis() as u64, Ordering::Relaxed);
+                    slots[wi].0.store(i + 1, Ordering::Relaxed);
                     v.push(f(i));
+                    slots[wi].0.store(0, Ordering::Relaxed);
                 }
                 done.lock().unwrap().insert(start, v);
             }));
@@ -84,6 +112,15 @@ where
                         // a gap can only exist after a stop request
                         d.clear();
                         break;
+                    }
+                    if let Some((limit, on_hang)) = &guard {
+                        let now = t0.elapsed().as_millis() as u64;
+                        for (idx, started) in slots.iter() {
+                            let i = idx.load(Ordering::Relaxed);
+                            if i > 0 && now.saturating_sub(started.load(Ordering::Relaxed)) > limit.as_millis() as u64 {
+                                on_hang(i - 1);
+                            }
+                        }
                     }
                     std::thread::sleep(std::time::Duration::from_millis(1));
                 }
